@@ -234,6 +234,11 @@ pub fn run_one(case: &Case, path: &str, prefix: &[u8], policy: RwPolicy) -> (Exe
                 Ok(Err(e)) => obs.lock().unwrap().errors.push((i, e)),
                 Err(p) => obs.lock().unwrap().errors.push((i, format!("panicked while using the database: {}", p))),
             }
+            match real::guarded(|| db.check()) {
+                Ok(Ok(())) => {}
+                Ok(Err(e)) => obs.lock().unwrap().errors.push((i, format!("check() on the open handle: {:?}", e))),
+                Err(p) => obs.lock().unwrap().errors.push((i, format!("check() panicked: {}", p))),
+            }
             ctx.yield_now("holding");
             inside.fetch_sub(1, Ordering::SeqCst);
             drop(db);
